@@ -222,10 +222,8 @@ func (m *zzC13XModel) zzApply(op zzC13XOp, x int64) bool {
 		if op.kind == zzC13XSetqQ1 {
 			// tgt:v names the variable tgt itself exports and nothing else
 			if !(m.present[p][k] && m.exp[p][k]) {
-				if len(c) == 1 && c[0] != p {
-					// slip writes the variable tgt merely inherits
-					m.wild[zzC13XRColonWrite][k] = true
-				}
+				// (C13-single-colon-write-inherited, repaired: slip no longer writes the variable tgt merely
+				// inherits, nothing is marked as damaged any more)
 				break
 			}
 		}
